@@ -83,7 +83,9 @@ impl<const PT: u8, const MIN: usize> RtcpPacketWriter for ExtBuilder<PT, MIN> {
         end
     }
     fn get_padding(&self) -> Option<u8> {
-        if self.padding == 0 {
+        // Both conventions a third-party writer may follow for "no padding requested" are represented in the
+        // family: members with an even count answer None, members with an odd count answer Some(0).
+        if self.padding == 0 && self.count % 2 == 0 {
             None
         } else {
             Some(self.padding)
